@@ -501,7 +501,9 @@ def import_dobs_string(content, full_output=False, separator_insertion=True):
             _check(False)
     names = list(set(names))
 
+    measured = {}
     for name in names:
+        measured[name] = [deltad[name][i] != 0. for i in range(len(deltad[name]))]
         for i in range(len(deltad[name])):
             tmp = np.zeros_like(deltad[name][i])
             for j in range(len(deltad[name][i])):
@@ -521,7 +523,7 @@ def import_dobs_string(content, full_output=False, separator_insertion=True):
             repdeltas = []
             repidl = []
             for j in range(len(deltad[name][i])):
-                if deltad[name][i][j] != 0.:
+                if measured[name][i][j]:
                     repdeltas.append(deltad[name][i][j])
                     repidl.append(idld[name][j])
             if len(repdeltas) > 0:
